@@ -114,4 +114,66 @@ def symmetrised_before_use(f: Func):
                 rev = True
         if not (fwd and rev):
             return False, f"{g.qualname}: neighbours of `{v}` are used as listed (forward stored: {fwd}, mirrored: {rev})"
+        moving = _admission_depends_on_loop_state(g, loop, v, w)
+        if moving:
+            return False, f"{g.qualname}: whether a listed neighbour is stored depends on `{moving}`, which the scan itself changes - an edge listed by one endpoint only is kept or dropped depending on the order of the scan"
     return True, ""
+
+
+_MUTATORS = {"add", "append", "discard", "remove", "pop", "update", "clear", "extend", "insert", "setdefault", "popitem"}
+
+
+def _admission_depends_on_loop_state(g: Func, loop: ast.For, v: str, w: str):
+    """Name of a container that (a) occurs in a test deciding whether the pair (v, w) is stored - an `if` around the
+    stores or a guard that `continue`s before them - and (b) is mutated inside the outermost loop around the scan,
+    other than the adjacency being built (a test `w not in adj[v]` only avoids storing a pair twice)."""
+    outer = loop
+    for n in own_nodes(g.node):
+        if isinstance(n, (ast.For, ast.While)) and any(x is loop for x in ast.walk(n)) and n is not loop:
+            if any(x is outer for x in ast.walk(n)):
+                outer = n
+    stores = []  # names of the adjacency tables written with (v, w) / (w, v)
+    for st in ast.walk(loop):
+        tgt = None
+        if isinstance(st, ast.Assign) and isinstance(st.targets[0], ast.Subscript) and isinstance(st.targets[0].value, ast.Subscript):
+            tgt = st.targets[0].value.value
+        elif isinstance(st, ast.Call) and isinstance(st.func, ast.Attribute) and st.func.attr in ("add", "append") and isinstance(st.func.value, ast.Subscript):
+            tgt = st.func.value.value
+        if isinstance(tgt, ast.Name):
+            stores.append(tgt.id)
+    mutated = set()
+    for n in ast.walk(outer):
+        if isinstance(n, ast.Call) and isinstance(n.func, ast.Attribute) and n.func.attr in _MUTATORS and isinstance(n.func.value, ast.Name):
+            mutated.add(n.func.value.id)
+        elif isinstance(n, (ast.Assign, ast.AugAssign)):
+            for t in n.targets if isinstance(n, ast.Assign) else [n.target]:
+                if isinstance(t, ast.Subscript) and isinstance(t.value, ast.Name):
+                    mutated.add(t.value.id)
+    mutated -= set(stores)
+    for n in ast.walk(loop):
+        if isinstance(n, ast.If):
+            names = {x.id for x in ast.walk(n.test) if isinstance(x, ast.Name)}
+            if w in names or v in names:
+                hit = sorted(names & mutated)
+                if hit:
+                    return hit[0]
+    return None
+
+
+def edge_wrapper_adjacency(ctx, oid: str, wf: Func, wname: str):
+    """An edge-list wrapper hands the generic routine the graph it was given: one successor list per node, every
+    input edge appended unconditionally inside the loop over the edges (self loops and repeated edges included -
+    for a topological sort a self loop is a cycle, for a shortest path a repeated edge may be the cheaper one)."""
+    wcfg = cfg_of(wf.node)
+    init = [n for n in own_nodes(wf.node) if isinstance(n, (ast.Assign, ast.AnnAssign)) and ast.unparse(n.targets[0] if isinstance(n, ast.Assign) else n.target) == "adj"]
+    apps = [n for n in own_nodes(wf.node) if isinstance(n, ast.Call) and isinstance(n.func, ast.Attribute) and n.func.attr == "append" and ast.unparse(n.func.value).startswith("adj[")]
+    ok = len(init) == 1 and ast.unparse(init[0].value) == "[[] for _ in range(n_nodes)]" and len(apps) >= 1
+    why = "" if ok else "no `adj = [[] for _ in range(n_nodes)]` with an append per edge found"
+    for a in apps:
+        an = wcfg.stmt_node_containing(a)
+        lp = an.loop
+        inside = lp is not None and lp.kind == "for" and ast.unparse(lp.ast.iter) == "edges"
+        tests_in_loop = [b for b in wcfg.guards(an) if b.test.kind == "test" and b.test.loop is lp]
+        if not inside or tests_in_loop:
+            ok, why = False, f"`{ast.unparse(a)}` is conditional or outside the loop over the input edges"
+    ctx.ob(oid, "R18 SIBLING-AGREEMENT (policy)", wf, f"{wname} builds one successor list per node and appends every input edge", ok, why, node=wf.node)
